@@ -25,6 +25,15 @@ def _observers():
 
 
 def run(ctx):
+    import edits
+    edits.REP_ASSIGN = True        # whole-field assignments are edits like any other for the invariant
+    try:
+        _run(ctx)
+    finally:
+        edits.REP_ASSIGN = False
+
+
+def _run(ctx):
     obs = _observers() if ctx.extra.get('model_available', True) else []
     session.run_sessions(ctx, ctx.scale(250, 6000), ctx.scale(14, 40), ['inv', 'reads', 'nodouble'], observers=obs, malformed=0.12)
     session.run_churn(ctx, ctx.scale(100, 1500), ctx.scale(50, 80), ['inv', 'reads'], observers=obs)   # small blocks: split/merge/redistribution underneath
@@ -37,7 +46,12 @@ def run(ctx):
 
 
 def search(ctx, hints):
-    session.run_sessions(ctx, ctx.scale(2500, 10000), 30, ['inv', 'reads', 'nodouble'], malformed=0.12)
+    import edits
+    edits.REP_ASSIGN = True
+    try:
+        session.run_sessions(ctx, ctx.scale(2500, 10000), 30, ['inv', 'reads', 'nodouble'], malformed=0.12)
+    finally:
+        edits.REP_ASSIGN = False
 
 
 def replay(ctx, data):
